@@ -35,6 +35,7 @@ def run_core(ctx, props, quick_n=2400, thorough_n=40000, points=(100, 250)):
         fails, errors = C.eval_cases(ctx, "tie", IMPORTS, "lcase", lines, fn="lfailures", shard=60)
     if errors:
         ctx.broken.append("correspondence evaluation failed in Coq: %s" % errors[0][1][-400:])
+    soft, fails = C.split_numerical_ties(fails, inputs, rep["oracle_failures"])
     if fails:
         i = fails[0]
         mo = C.eval_term(ctx, IMPORTS, "lmodel_out %s" % lines[i])
@@ -54,6 +55,7 @@ def run_core(ctx, props, quick_n=2400, thorough_n=40000, points=(100, 250)):
         "oracle_failures_for_this_property": len(mine),
         "oracle_failures_unlisted": new,
         "correspondence_mismatches": len(fails),
+        "numerical_ties_accepted": [inputs[i][:300] for i in soft],
         "oracle_skipped_too_large": cnt.get("oracle.skipped_too_large", 0),
     }
     return rep, cov
